@@ -128,6 +128,9 @@ class RemoteServer():
                                 continue
 
                             ctx.call(cli)
+                            # the context's helper process has its own copy of the connection by now (and has closed it
+                            # if the worker could not be created): ours is not needed any more
+                            cli.close()
                         else:
                             logger.debug('Waiting for the RemoteWorker object...')
                             child = recv_msg(cli, { '_socket': cli, '_reset_sigterm_hnd': True }, comment='server: remote worker')
